@@ -10,6 +10,8 @@ import Dashu.Proofs.Text.DisplayLink
 import Dashu.Proofs.Text.FloatTie
 import Dashu.Proofs.Text.DisplayText
 import Dashu.Proofs.Text.FloatIsize
+import Dashu.Proofs.Text.FloatDebug
+import Dashu.Props.C07Debug
 /-
   C08 — Float text I/O is lossless; base/precision changes are faithfully rounded.   **partial**
 
@@ -608,6 +610,51 @@ theorem scale_split_spec (B : Nat) (hp : Bool) (src : List Nat) :
         e = if src.drop (pos + 1) = [] then .noDigits else .invalidDigit) :=
   ⟨splitScale_ok_iff B hp src, splitScale_error_iff B hp src⟩
 
+/-- **the integer inside the float `Debug` forms is C07's `DoubleEnd` text** (link to C07's proved kernel, round 8): `debugInt` — the
+    significand printer of `debugRepr` / `debugFBig`, the mirrored `Debug for Repr<B>` / `Debug for FBig<R, B>` — equals the closed
+    form `debugSpec` of C07 for every word size, flag combination and integer, and therefore is the text the word-level mirror of
+    `DoubleEnd::fmt` (`fmt_non_power_two` + `format_prepared`; C07 `debug_text`) yields without failing any check, for every even
+    word size `≥ 8` and every first guess `est` that passes `log_word_base`'s own `assert!` (`est = 1`, the driver's, always does).
+    The driver's run-time comparison `debugSpec = debugInt` is this theorem. -/
+theorem debug_significand_is_double_end (W : Nat) (alt plus : Bool) (z : Int) :
+    debugInt W alt plus z = debugSpec W alt plus z ∧
+    (8 ≤ W → 2 ∣ W → ∀ est, (2 ^ (2 * W) ≤ z.natAbs → 10 ^ est ≤ z.natAbs) →
+      doubleEndFmt W est alt plus z = .ok (debugInt W alt plus z)) ∧
+    (8 ≤ W → 2 ∣ W → doubleEndFmt W 1 alt plus z = .ok (debugInt W alt plus z)) :=
+  ⟨Dashu.Proofs.Text.FloatDebug.debugInt_eq_debugSpec W alt plus z,
+    fun hW hev est hest => Dashu.Proofs.Text.FloatDebug.doubleEndFmt_eq_debugInt W est hW hev alt plus z hest,
+    fun hW hev => Dashu.Proofs.Text.FloatDebug.doubleEndFmt_one_eq_debugInt W hW hev alt plus z⟩
+
+/-- **`Debug` of finite `Repr<B>` / `FBig<R, B>` over the `DoubleEnd` text of the significand**: with `T` the plain and `Ta` the
+    `{:#?}` text `DoubleEnd::fmt` yields for the significand (C07's mirrored code), `{:?}` of a `Repr` is `T * B ^ e`, of an `FBig`
+    `T * B ^ e (prec: p)`; the `significand:` field of the pretty forms is `Ta` in base 10 and `T (N bits)` / `T (N digits)`
+    (`N = digits::<B>`) in base 2 / every other base.  `T` is the sign and ALL decimal digits (`Display` text, C07
+    `print_eq_reference`) while `|significand| < 2^(2W)`; beyond, the first `dpw` and the last `dpw` digits of that text around `..`,
+    which never overlap (`dpw` = decimal digits per word, 19 for 64-bit words; C07 `debug_head_tail_true_digits`). -/
+theorem debug_float_forms (W : Nat) (hW : 8 ≤ W) (hev : 2 ∣ W) (B : Nat) (m : Mode) (r : FRepr) (prec : Nat) :
+    ∃ T Ta : List Nat,
+      doubleEndFmt W 1 false false r.signif = .ok T ∧ doubleEndFmt W 1 true false r.signif = .ok Ta ∧
+      debugRepr W B false r = T ++ strBytes " * " ++ printSpec 10 false B ++ strBytes " ^ " ++ printSpecInt 10 false r.exp ∧
+      debugFBig W B m false r prec = T ++ strBytes " * " ++ printSpec 10 false B ++ strBytes " ^ " ++
+        printSpecInt 10 false r.exp ++ strBytes " (prec: " ++ printSpec 10 false prec ++ [41] ∧
+      debugSignifField W 10 r.signif = Ta ∧
+      (B ≠ 10 → debugSignifField W B r.signif = T ++ strBytes " (" ++ printSpec 10 false (digitsI B r.signif) ++
+        strBytes (if B = 2 then " bits)" else " digits)")) ∧
+      (r.signif.natAbs < 2 ^ (2 * W) → T = (if r.signif < 0 then [45] else []) ++ printSpec 10 false r.signif.natAbs) ∧
+      (2 ^ (2 * W) ≤ r.signif.natAbs →
+        T = (if r.signif < 0 then [45] else []) ++ (printSpec 10 false r.signif.natAbs).take (radixInfo W 10).dpw ++ [46, 46] ++
+          (printSpec 10 false r.signif.natAbs).drop ((printSpec 10 false r.signif.natAbs).length - (radixInfo W 10).dpw) ∧
+        2 * (radixInfo W 10).dpw < (printSpec 10 false r.signif.natAbs).length) := by
+  obtain ⟨h1, h2, h3, h4⟩ := Dashu.Proofs.Text.FloatDebug.debug_forms W B m r prec
+  refine ⟨debugInt W false false r.signif, debugInt W true false r.signif,
+    Dashu.Proofs.Text.FloatDebug.doubleEndFmt_one_eq_debugInt W hW hev false false r.signif,
+    Dashu.Proofs.Text.FloatDebug.doubleEndFmt_one_eq_debugInt W hW hev true false r.signif, h1, h2, h3, h4,
+    Dashu.Proofs.Text.FloatDebug.debugInt_small W r.signif, ?_⟩
+  intro hbig
+  rw [Dashu.Proofs.Text.FloatDebug.debugInt_eq_debugSpec]
+  have h := Dashu.Props.C07Debug.debug_head_tail_true_digits W hW hev r.signif hbig
+  exact ⟨h.1, h.2.2.2⟩
+
 -- non-vacuity
 example : ilogExact 16 2 = 4 ∧ ilogExact 8 2 = 3 ∧ ilogExact 10 2 = 0 ∧ ilogExact 36 6 = 2 := by decide
 example : (2 : Nat) ≤ 10 ∧ (1 : Nat) ≤ 53 := by decide
@@ -694,5 +741,12 @@ example : parseIsize 64 [45,57,50,50,51,51,55,50,48,51,54,56,53,52,55,55,53,56,4
     parseIsize 64 [43] = .error .invalidDigit ∧ parseIsize 64 [] = .error .noDigits := by decide +kernel
 example : splitScale 10 false [49, 101, 43, 55] = .ok (7, false, [49]) ∧ splitScale 10 false [49, 101] = .error .noDigits ∧
     splitScale 10 false [49, 101, 120] = .error .invalidDigit := by decide +kernel
+
+-- round 8: the float Debug forms over C07's DoubleEnd text; a three-word significand prints head..tail
+example := debug_significand_is_double_end 64 true true (-(10 ^ 40 + 7))
+example := (debug_significand_is_double_end 64 false false (2 ^ 130 + 1)).2.2 (by decide) (by decide)
+example := debug_float_forms 64 (by decide) (by decide) 2 .zero ⟨-(2 ^ 130 + 1), -7⟩ 131
+example : debugRepr 64 10 false ⟨-12345, -3⟩ = strBytes "-12345 * 10 ^ -3" ∧
+    debugInt 64 false false (2 ^ 128) = strBytes "3402823669209384634..3374607431768211456" := by decide +kernel
 
 end Dashu.Props.C08
